@@ -27,7 +27,7 @@ ASSUMPTIONS = [
     "a compact-form call may raise (unsplittable IRI, generate=False without prefix); if it answers, the answer must be valid now",
     "answers in <iri> form use no prefix and are accepted",
 ]
-PROBES = ["qname-after-rebind-of-its-namespace", "longer-namespace-bound-after-qname", "replace-on-taken-prefix", "override-false-on-bound-namespace", "second-handle-qname-after-first-handle-bind", "generated-prefix", "empty-prefix-bound", "prefix-collision-numbered"]
+PROBES = ["qname-after-rebind-of-its-namespace", "longer-namespace-bound-after-qname", "replace-on-taken-prefix", "override-false-on-bound-namespace", "second-handle-qname-after-first-handle-bind", "generated-prefix", "empty-prefix-bound", "prefix-collision-numbered", "listing-abandoned-half-way"]
 KNOWN_PREDICATES = {}
 
 NSS = ["http://ex.org/", "http://ex.org/a", "http://ex.org/a/", "http://ex.org/a#", "http://ex.org/a/b#", "http://ex.org/ab", "urn:x:", "http://other.org/v#"]
@@ -60,7 +60,7 @@ def generate(seed, tier):
     nss = nss + [nss[0] + "1", nss[-1] + "2024"]
     nh = g.randint(1, 3)
     cfg = {"store": g.choice(["memory", "memory", "simple"]), "handles": [g.choice(["none", "core", "rdflib", "core"]) for _ in range(nh)], "iris": iris, "nss": nss}
-    w = {"bind": g.choice([2, 4, 6]), "qname": g.choice([2, 4, 8]), "parse": g.choice([0, 1]), "serialize": g.choice([0, 1]), "expand": 1, "reset": g.choice([0, 0, 1]), "storebind": g.choice([0, 0, 1])}
+    w = {"bind": g.choice([2, 4, 6]), "qname": g.choice([2, 4, 8]), "parse": g.choice([0, 1]), "serialize": g.choice([0, 1]), "expand": 1, "reset": g.choice([0, 0, 1]), "storebind": g.choice([0, 0, 1]), "peek": g.choice([0, 1, 2])}
     nsteps = g.randint(3, 30 if tier == "quick" else 60)
     ops = []
     for i in range(nsteps):
@@ -84,6 +84,10 @@ def generate(seed, tier):
         elif kind == "expand":
             op["prefix"] = g.pick(prefixes)
             op["local"] = g.pick(LOCALS)
+        elif kind == "peek":
+            # a listing / membership read that stops early (an iterator closed half-way)
+            op["how"] = g.choice(["contains", "next-close", "break-after-2"])
+            op["iri"] = g.pick(iris)
         elif kind == "storebind":
             op["prefix"] = g.pick(prefixes)
             op["ns"] = g.pick(nss)
@@ -123,6 +127,8 @@ def execute(trace, ctx):
             ns = [str(n) for p, n in lst]
             ctx.check(len(ps) == len(set(ps)), "C17.prefix-listed-twice", lambda: f"{where}: namespaces() via handle {h} lists a prefix twice: {_srt(lst)}")
             ctx.check(len(ns) == len(set(ns)), "C17.namespace-listed-twice", lambda: f"{where}: namespaces() via handle {h} lists a namespace under two prefixes: {_srt((p, str(n)) for p, n in lst)}", listing=_srt((p, str(n)) for p, n in lst))
+            raw = {(p, str(n)) for p, n in store.namespaces()}
+            ctx.check({(p, str(n)) for p, n in lst} == raw, "C17.listing-incomplete", lambda: f"{where}: namespaces() via handle {h} lists {_srt((p, str(n)) for p, n in lst)}, the store holds {_srt(raw)}")
             for p, n in lst:
                 back = store.namespace(p)
                 ctx.check(back is not None and str(back) == str(n), "C17.lookup-by-prefix", lambda: f"{where}: namespaces() says {p!r}->{n}, store.namespace({p!r}) = {back}")
@@ -232,6 +238,21 @@ def execute(trace, ctx):
             else:
                 ctx.log(k, f"h{h} {op['format']} {len(out)}")
             last_bind_by[0] = h
+        elif k == "peek":
+            ctx.probe("listing-abandoned-half-way")
+            if op["how"] == "contains":
+                got = op["iri"] in nm
+                exp = any(op["iri"].startswith(str(n)) for _, n in store.namespaces())
+                ctx.check(got == exp, "C17.manager-contains", lambda: f"{op['iri']!r} in namespace_manager -> {got}, bindings say {exp}")
+            elif op["how"] == "next-close":
+                it = iter(g.namespaces())
+                next(it, None)
+                if hasattr(it, "close"):
+                    it.close()
+            else:
+                for n_, _ in enumerate(g.namespaces()):
+                    if n_ >= 1:
+                        break
         elif k == "reset":
             nm.reset()
         elif k == "storebind":
